@@ -13,9 +13,11 @@ import tempfile
 PY = '/venv/bin/python'
 
 
-def _run(prop, runs, workers, hashseed, out):
+def _run(prop, runs, workers, hashseed, out, chunk=None):
     env = dict(os.environ)
     env['PYTHONHASHSEED'] = hashseed
+    if chunk:
+        env['VERIF_CHUNK'] = str(chunk)
     cmd = [PY, '-B', '-m', 'sim.cli', prop, '--runs', str(runs), '--workers', str(workers),
            '--no-evidence', '--no-minimise', '--digests', out, '--budget', '600']
     r = subprocess.run(cmd, env=env, stdout=subprocess.PIPE, stderr=subprocess.STDOUT, text=True)
@@ -34,11 +36,14 @@ def main(args):
             print('%s: engine not built yet, skipped' % prop)
             continue
         with tempfile.TemporaryDirectory(prefix='verif-det.') as d:
-            variants = [('w16-h0-a', 16, '0'), ('w16-h0-b', 16, '0'), ('w1-h0', 1, '0'), ('w5-h12345', 5, '12345')]
+            # the last variant runs every history in its own forked process: equal digests mean that no run of the
+            # sample depends on state left in the process by the runs before it
+            variants = [('w16-h0-a', 16, '0', None), ('w16-h0-b', 16, '0', None), ('w1-h0', 1, '0', None),
+                        ('w5-h12345', 5, '12345', None), ('w16-isolated', 16, '0', 1)]
             outs = {}
-            for name, w, hs in variants:
+            for name, w, hs, chunk in variants:
                 path = os.path.join(d, name)
-                rc, text = _run(prop, runs, w, hs, path)
+                rc, text = _run(prop, runs, w, hs, path, chunk)
                 if rc == 2 or not os.path.isfile(path):
                     print('%s: %s harness error\n%s' % (prop, name, text[-2000:]))
                     bad += 1
@@ -58,6 +63,6 @@ def main(args):
                         d_ = [x.split()[0] for x, y in zip(a, b) if x != y]
                         print('   %s: first differing run indices %s' % (n, d_[:10]))
             else:
-                print('%s: deterministic over %d runs x %d variants (workers 16/16/1/5, PYTHONHASHSEED 0/0/0/12345)'
+                print('%s: deterministic over %d runs x %d variants (workers 16/16/1/5/16, PYTHONHASHSEED 0/0/0/12345/0, last variant one process per run)'
                       % (prop, nlines, len(variants)))
     return 0 if bad == 0 else 2
